@@ -276,13 +276,14 @@ func runScenario(t *testing.T, sc scenario) (obs observed, fails []failure) {
 			s := snapshot()
 			return view{s.Reg, s.Routes, s.Relays}
 		}
+		daPending := map[int]bool{} // connections a DisconnectAll in progress has unregistered and will close
 		checkOpenRegistered := func(o op) {
 			// a connection that completed its handshake and is still open must be the registered one
 			cmu.Lock()
 			defer cmu.Unlock()
 			perPeer := map[int]int{}
 			for tag, c := range conns {
-				if c.IsClosed() || c.CloseHeld() {
+				if c.IsClosed() || daPending[tag] {
 					continue // closed, or unregistered by a DisconnectAll that is about to close it
 				}
 				pc := pconn[tag]
@@ -695,6 +696,7 @@ func runScenario(t *testing.T, sc scenario) (obs observed, fails []failure) {
 				for tag, c := range conns {
 					if pc := pconn[tag]; pc != nil && !c.IsClosed() && m.VerifRegistered(pc) {
 						c.HoldClose()
+						daPending[tag] = true
 						n++
 					}
 				}
@@ -734,6 +736,9 @@ func runScenario(t *testing.T, sc scenario) (obs observed, fails []failure) {
 					}
 					cmu.Unlock()
 					daActive = false
+					for t := range daPending {
+						delete(daPending, t)
+					}
 					return
 				}
 				o.C = tag
@@ -749,6 +754,9 @@ func runScenario(t *testing.T, sc scenario) (obs observed, fails []failure) {
 					}
 					cmu.Unlock()
 					daActive = false
+					for t := range daPending {
+						delete(daPending, t)
+					}
 				}
 			case "relay":
 				for _, hp := range midHeld {
